@@ -26,13 +26,13 @@ func (s *seg) LiveSize() int64 { return s.Live }
 type opts struct {
 	Mpt    int   `json:"mpt"`
 	Max    int64 `json:"max"`
-	Growth int   `json:"growth"`
+	G2     int   `json:"g2"` // twice the tier growth, so that 1.5 and 2.5 can be given
 	Width  int   `json:"width"`
 	Floor  int64 `json:"floor"`
 }
 
 func (o opts) real() *mergeplan.Options {
-	return &mergeplan.Options{MaxSegmentsPerTier: o.Mpt, MaxSegmentSize: o.Max, TierGrowth: float64(o.Growth),
+	return &mergeplan.Options{MaxSegmentsPerTier: o.Mpt, MaxSegmentSize: o.Max, TierGrowth: float64(o.G2) / 2,
 		SegmentsPerMergeTask: o.Width, FloorSegmentSize: o.Floor, ReclaimDeletesWeight: 2.0}
 }
 
@@ -121,11 +121,15 @@ func main() {
 	enc = json.NewEncoder(f)
 	rng := rand.New(rand.NewSource(*seed))
 	optsList := []opts{
-		{Mpt: 10, Max: 5000000, Growth: 10, Width: 10, Floor: 2000}, // the defaults
-		{Mpt: 2, Max: 40, Growth: 2, Width: 3, Floor: 1},
-		{Mpt: 3, Max: 100, Growth: 3, Width: 2, Floor: 4},
-		{Mpt: 1, Max: 64, Growth: 2, Width: 4, Floor: 2},
-		{Mpt: 10, Max: 1000, Growth: 10, Width: 10, Floor: 20},
+		{Mpt: 10, Max: 5000000, G2: 20, Width: 10, Floor: 2000}, // the defaults
+		{Mpt: 2, Max: 40, G2: 4, Width: 3, Floor: 1},
+		{Mpt: 3, Max: 100, G2: 6, Width: 2, Floor: 4},
+		{Mpt: 1, Max: 64, G2: 4, Width: 4, Floor: 2},
+		{Mpt: 10, Max: 1000, G2: 20, Width: 10, Floor: 20},
+		// fractional tier growth (1.5, 2.5): the budget staircase rounds every tier down
+		{Mpt: 2, Max: 400, G2: 3, Width: 3, Floor: 4},
+		{Mpt: 3, Max: 1000, G2: 5, Width: 4, Floor: 2},
+		{Mpt: 10, Max: 5000000, G2: 3, Width: 10, Floor: 2000},
 	}
 	// (i) contract: exhaustive small lists over a boundary size set
 	for _, o := range optsList[1:4] {
